@@ -101,6 +101,7 @@ func (c *Compiler) declConst(s *Sym) {
 }
 
 func (c *Compiler) constBlock(d *ast.GenDecl, defs *gogen.ConstDefs) {
+	lastN := 0
 	for i, sp := range d.Specs {
 		vs := sp.(*ast.ValueSpec)
 		names := make([]string, len(vs.Names))
@@ -108,7 +109,10 @@ func (c *Compiler) constBlock(d *ast.GenDecl, defs *gogen.ConstDefs) {
 			names[k] = n.Name
 		}
 		if len(vs.Values) == 0 {
+			// implicit repetition: gogen re-runs the previous initialiser callback
+			c.B.pre("NewConstStart")
 			defs.Next(i, token.NoPos, names...)
+			c.B.post("EndInit", lastN, 0)
 			continue
 		}
 		var t types.Type
@@ -116,6 +120,8 @@ func (c *Compiler) constBlock(d *ast.GenDecl, defs *gogen.ConstDefs) {
 			t = c.typExpr(vs.Type)
 		}
 		vals := vs.Values
+		lastN = len(vals)
+		c.B.pre("NewConstStart")
 		defs.New(func(cb *gogen.CodeBuilder) int {
 			c.B.post("InitStart", 0, 0)
 			for _, v := range vals {
